@@ -618,7 +618,7 @@ func (c *SpecCtx) quant(x *SExpr) Value {
 		}
 		var pp []string
 		for _, p := range ps {
-			for _, q := range patternTerms(stripBoundItes(p)) {
+			for _, q := range patternTerms(stripBoundItes(simplifySelStore(p))) {
 				pp = append(pp, e.hoistItes(q))
 			}
 		}
